@@ -122,7 +122,53 @@ static void run_active_tests() {
     if (!(a.notified == 1 && a.last == RESULT_OK && a.msgs.size() == 1)) fail("active request %s with a correct response: result %d, %zu messages reported", hexs(ms).c_str(), a.last, a.msgs.size()); }
 }
 
+
+// a pending arbitration must not survive the loss of the signal: real PlainDevice over a scripted transport
+#include "lib/ebus/device_trans.h"
+#include "lib/ebus/transport.h"
+class ScriptTransport : public Transport {
+ public:
+  ScriptTransport() : Transport("script", 0) {}
+  std::string getTransportInfo() const override { return "script"; }
+  result_t open() override { return RESULT_OK; }
+  void close() override {}
+  bool isValid() override { return true; }
+  result_t write(const uint8_t* data, size_t len) override { for (size_t i = 0; i < len; i++) { writes.push_back(data[i]); pending.push_back(data[i]); } return RESULT_OK; }   // echo
+  result_t read(unsigned int timeout, const uint8_t** data, size_t* len) override {
+    if (!have) { if (pending.empty()) return RESULT_ERR_TIMEOUT; cur = pending.front(); pending.pop_front(); have = true; }
+    *data = &cur; *len = 1; return RESULT_OK;
+  }
+  void readConsumed(size_t) override { have = false; }
+  result_t openInternal() override { return RESULT_OK; }
+  std::deque<uint8_t> pending; std::vector<uint8_t> writes; uint8_t cur = 0; bool have = false;
+};
+static void step(DirectProtocolHandler& h) {
+  unsigned int recvTimeout = 0; symbol_t sentSymbol = ESC; struct timespec sentTime;
+  result_t r = h.handleSend(&recvTimeout, &sentSymbol, &sentTime);
+  if (r >= RESULT_OK) h.handleReceive(0, r == RESULT_CONTINUE, sentSymbol, &sentTime);
+}
+static void run_nosignal_arbitration() {
+  ScriptTransport* tr = new ScriptTransport(); PlainDevice* dev = new PlainDevice(tr); FakeListener lis;
+  ebus_protocol_config_t cfg = defaultConfig(); cfg.answer = false; cfg.lockCount = 1; cfg.generateSyn = false;
+  DirectProtocolHandler& h = *new DirectProtocolHandler(cfg, dev, &lis);
+  MasterSymbolString m; for (symbol_t v : {0x31, 0x15, 0xb5, 0x09, 0x00}) m.push_back(v);
+  CountingRequest* req = new CountingRequest(m);
+  tr->pending.push_back(0xAA); step(h); tr->pending.push_back(0xAA); step(h);     // signal acquired, bus idle
+  h.m_nextRequests.push(req);
+  tr->pending.push_back(0x10); step(h);                                            // some other symbol: the arbitration is requested for the next SYN
+  if (!dev->isArbitrating()) { tr->pending.push_back(0xAA); step(h); }
+  bool requested = dev->isArbitrating();
+  h.m_lastReceive -= 5;                                                            // the bus stays silent for more than a second
+  for (int i = 0; i < 3 && h.m_state != bs_noSignal; i++) step(h);
+  size_t writesBefore = tr->writes.size();
+  bool drained = req->notified == 1 && req->last == RESULT_ERR_NO_SIGNAL && h.m_nextRequests.peek() == nullptr;
+  tr->pending.push_back(0xAA); step(h);                                            // the signal returns with a lone SYN
+  if (requested && drained && tr->writes.size() > writesBefore)
+    fail("signal lost while an arbitration was pending: the request was completed with ERR_NO_SIGNAL and no request is queued, but after the next SYN ebusd wrote its address %02x on the bus", tr->writes.back());
+}
+
 int main(int argc, char** argv) {
+  run_nosignal_arbitration();
   run_active_tests();
   run_start_failure();
   std::vector<symbol_t> bc = {0x10, 0xfe, 0xb5, 0x16, 0x03, 0x01, 0xa9, 0xaa}, ms = {0x03, 0x15, 0xb5, 0x09, 0x03, 0x0d, 0x2a, 0x00}, sl = {0x02, 0xaa, 0x55}, mm = {0x71, 0x10, 0x07, 0x04, 0x00};
